@@ -29,6 +29,8 @@ def coarse(lex):
         return cat([coarse(p) for p in lex[1]])
     if k == 'joined':
         return ('joined', coarse(lex[1]), tuple(sorted({coarse(p) for p in lex[2]}, key=str)))
+    if k == 'rep':
+        return ('rep', coarse(lex[1]))
     if k == 'minus':
         return coarse(lex[1])
     return ('noline',) if no_linebreak(lex) else ('any', 'text')
@@ -63,6 +65,8 @@ class Lex:
             return r'[^\n\r\x0b\x0c\x1c\x1d\x1e]*'
         if k in ('objrepr', 'ambient'):
             return r'[^\n\r]*'
+        if k == 'rep':
+            return '(?:%s)*' % self.regex(lex[1])
         if k == 'joined':
             alts = '|'.join('(?:%s)' % self.regex(p) for p in lex[2])
             return '(?:(?:%s)(?:(?:%s)(?:%s))*)?' % (alts, self.regex(lex[1]), alts)
@@ -445,8 +449,16 @@ def rule_callee_whitelist(cm, em, rep, rid):
 def rule_markers_not_forgeable(cm, rep, rid):
     rep.rule(rid, 'values that steer code generation by name (the if-then-else commit marker) cannot be produced from source '
                   'text: the marker is a distinct node class, or the class of names the visitor can build excludes it')
-    rules, falls, markers = rc.translate_rules(cm)
     cb = cm.comp.methods['compile_body']
+    try:
+        rules, falls, markers = rc.translate_rules(cm)
+    except AnalysisError as e:
+        # fall back to the syntax: comparisons of a name-like attribute with a string constant inside compile_body
+        rules, markers = [], cm.marker_classes()
+        named_syn = [(norm(x.left), x.comparators[0].value) for x in own_nodes(cb.node) if isinstance(x, ast.Compare) and len(x.ops) == 1
+                     and isinstance(x.ops[0], ast.Eq) and isinstance(x.comparators[0], ast.Constant) and isinstance(x.comparators[0].value, str)
+                     and ('name' in norm(x.left) or norm(x.left).endswith('.value'))]
+        rules = [dict(state=type('S', (), {'eqs': [(k, '==', v) for k, v in named_syn]})())]
     named = set()
     for r in rules:
         for k, op, v in r['state'].eqs:
@@ -664,7 +676,8 @@ def rule_program_keys(cm, rep, rid):
         raise AnalysisError('anchor vanished: compile_program/compile_function')
     loops = [s for s in own_nodes_ordered(cp.node) if isinstance(s, ast.For) and '.items()' in norm(s.iter)]
     calls = [c for s in loops for c in ast.walk(s) if isinstance(c, ast.Call) and is_self_attr(c.func, 'compile_function')]
-    if len(loops) == 1 and len(calls) == 1:
+    direct = [c for c in calls if next((p for p in parents(c) if isinstance(p, (ast.For, ast.While, ast.ListComp, ast.GeneratorExp))), None) in loops]
+    if len(loops) == 1 and len(calls) == 1 and len(direct) == 1:
         rep.ok(rid, 'compile_program', 'one function per key of the program dictionary', cp.loc())
     else:
         rep.violation(rid, 'compile_program', 'compile_program does not emit exactly one function per (name, arity) key', cp.loc())
@@ -1242,3 +1255,88 @@ def rule_head_arguments(cm, rep, rid):
             rep.ok(rid, 'head-args:once', 'variables occurring more than once in the head are unified, not aliased', fnd.loc())
         else:
             rep.violation(rid, 'head-args:once', 'repeated head variables may be aliased instead of unified: p(X, X) would accept p(a, b)', fnd.loc())
+
+
+def _mutated_params(cm, f, seen=None):
+    """parameters of f that f (or a callee it forwards them to) mutates in place"""
+    from .callgraph import CallGraph, arg_for_param
+    seen = seen if seen is not None else set()
+    if f in seen:
+        return set()
+    seen.add(f)
+    out = set()
+    params = set(f.params[1:] if f.is_method else f.params)
+    for x in own_nodes_ordered(f.node):
+        tgt = None
+        if isinstance(x, ast.Call) and isinstance(x.func, ast.Attribute) and x.func.attr in (
+                'append', 'add', 'update', 'extend', 'insert', 'setdefault', 'pop', 'remove', 'discard', 'clear'):
+            tgt = x.func.value
+        elif isinstance(x, ast.Subscript) and isinstance(x.ctx, (ast.Store, ast.Del)):
+            tgt = x.value
+        elif isinstance(x, ast.AugAssign):
+            tgt = x.target
+        if isinstance(tgt, ast.Name) and tgt.id in params:
+            out.add(tgt.id)
+        if isinstance(x, ast.Call) and is_self_attr(x.func) and f.cls is not None:
+            callee = cm.repo.lookup_method(f.cls, x.func.attr)
+            if callee is not None:
+                sub = _mutated_params(cm, callee, seen)
+                for q in sub:
+                    a = arg_for_param(x, callee, q)
+                    if isinstance(a, ast.Name) and a.id in params:
+                        out.add(a.id)
+    return out
+
+
+def rule_per_clause_stateless(cm, rep, rid):
+    rep.rule(rid, 'the code of a clause is a function of that clause alone: the per-clause compile function receives no '
+                  'accumulator that it (or a callee) mutates, and every container field of the compiler that is mutated while a '
+                  'clause is compiled is reset at the start of the clause or pushed and popped in balance')
+    f = cm.comp.methods.get('compile_function_body')
+    if f is None:
+        raise AnalysisError('anchor vanished: compile_function_body')
+    extra = f.params[2:]
+    mp = _mutated_params(cm, f)
+    bad = [p for p in extra if p in mp]
+    for p in bad:
+        rep.violation(rid, '%s:%s' % (f.qname, p), 'compile_function_body receives the accumulator %s, which is updated while one clause is '
+                      'compiled and read while the next one is: what a clause compiles to depends on the clauses before it (a variable '
+                      'declared for an earlier clause is not declared again, so clause activations share it)' % p, f.loc())
+    # container fields mutated in the call tree of the per-clause function
+    tree = []
+    stack = [f]
+    while stack:
+        g = stack.pop()
+        if g in tree:
+            continue
+        tree.append(g)
+        for x in own_nodes(g.node):
+            if isinstance(x, ast.Call) and is_self_attr(x.func) and g.cls is not None:
+                c = cm.repo.lookup_method(g.cls, x.func.attr)
+                if c is not None and c.name not in ('_debug',):
+                    stack.append(c)
+    mutated, reset, popped = {}, set(), set()
+    for g in tree:
+        for x in own_nodes_ordered(g.node):
+            if isinstance(x, ast.Call) and isinstance(x.func, ast.Attribute) and is_self_attr(x.func.value):
+                if x.func.attr in ('append', 'add', 'update', 'extend', 'insert', 'setdefault'):
+                    mutated.setdefault(x.func.value.attr, (g, x))
+                if x.func.attr in ('pop',):
+                    popped.add(x.func.value.attr)
+            if isinstance(x, ast.Subscript) and isinstance(x.ctx, ast.Store) and is_self_attr(x.value):
+                mutated.setdefault(x.value.attr, (g, x))
+            if isinstance(x, ast.Assign):
+                for t in x.targets:
+                    if is_self_attr(t) and isinstance(x.value, (ast.List, ast.Dict, ast.Set, ast.Call)):
+                        reset.add(t.attr)
+    for fld, (g, x) in sorted(mutated.items()):
+        key = '%s.%s' % (cm.comp.qname, fld)
+        if fld in reset:
+            rep.ok(rid, key, 'reset for every clause', g.loc(x))
+        elif fld in popped:
+            rep.ok(rid, key, 'pushed and popped while a clause is compiled', g.loc(x))
+        else:
+            rep.violation(rid, key, 'the compiler field %s grows while clauses are compiled and is never reset: later clauses are '
+                          'compiled differently from earlier ones' % fld, g.loc(x))
+    if not bad:
+        rep.ok(rid, f.qname, 'no accumulator parameter; %d container field(s) examined' % len(mutated), f.loc())
